@@ -61,6 +61,7 @@ P_C14 == [][Step(C14_Step)]_vars
 P_C15 == [][Step(C15_Step)]_vars
 P_C16 == [][Step(C16_Step)]_vars
 P_C17 == [][Step(C17_Step)]_vars
+P_C19 == [][Step(C19_Step)]_vars
 
 \* C09, spacing: two syncs of one replica set that issue pod writes (status writes succeeding) are at least
 \* reconcileFrequency apart.
